@@ -5,7 +5,7 @@
     - only the innermost fill boundary matters, and only through what [fillctx] shows,
     - a call where no fill is visible may be replaced by a plain frame around its body. *)
 From Coq Require Import List ZArith NArith Bool Lia PeanoNat.
-From UV Require Import Model.Node Model.Sig Model.Exec Model.Calls Proofs.SigSound.
+From UV Require Import Model.Node Model.Sig Model.Exec Model.Calls Proofs.SimBase Proofs.SigMono Proofs.SigSound Proofs.Frame.
 Import ListNotations.
 
 Definition vsim (s s' : rt) : Prop :=
@@ -44,6 +44,56 @@ Proof.
   intros H K. destruct r as [a|c a| |]; simpl in *; auto.
   - destruct H as (Ha & b & -> & V & Hb). simpl. auto.
   - destruct H as (Ha & b & -> & V & Hb). simpl. eauto.
+Qed.
+
+Lemma REL_match h h' h1 h1' r r' (ko ko' : rt -> res) (ke ke' : bool -> rt -> res) :
+  REL h1 h1' r r' ->
+  (forall a b, vsim a b -> hid a = h1 -> hid b = h1' -> REL h h' (ko a) (ko' b)) ->
+  (forall c a b, vsim a b -> hid a = h1 -> hid b = h1' -> REL h h' (ke c a) (ke' c b)) ->
+  REL h h' (match r with Ok a => ko a | Err c a => ke c a | x => x end)
+           (match r' with Ok b => ko' b | Err c b => ke' c b | x => x end).
+Proof.
+  intros H KO KE. destruct r as [a|c a| |]; simpl in *; auto.
+  - destruct H as (Ha & b & -> & V & Hb). auto.
+  - destruct H as (Ha & b & -> & V & Hb). auto.
+Qed.
+
+(** the two kinds of frame: a call (fill boundary + frame) and a plain frame (exec_with_span) *)
+Definition enter_call (s : rt) : rt := RT (stk s) (und s) (fills s) (length (fills s) :: fbs s) (S (depth s)).
+Definition leave_call (s2 : rt) : rt := RT (stk s2) (und s2) (fills s2) (tl (fbs s2)) (pred (depth s2)).
+Definition enter_frame (s : rt) : rt := RT (stk s) (und s) (fills s) (fbs s) (S (depth s)).
+Definition leave_frame (s2 : rt) : rt := RT (stk s2) (und s2) (fills s2) (fbs s2) (pred (depth s2)).
+Definition height_ok (sg : sig) (s s2 : rt) : bool :=
+  Z.eqb (Z.of_nat (length (stk s2)) - Z.of_nat (length (stk s))) (Z.of_nat (so sg) - Z.of_nat (sa sg)).
+Definition framed (fin : rt -> rt) (chk : rt -> bool) (r : res) : res :=
+  match r with
+  | Ok a => if chk a then Ok (fin a) else Err false (fin a)
+  | Err c a => Err c (fin a)
+  | x => x end.
+
+Lemma leave_call_ok sg s s' a b : vsim s s' -> vsim a b ->
+  hid a = hid (enter_call s) -> hid b = hid (enter_call s') ->
+  vsim (leave_call a) (leave_call b) /\ hid (leave_call a) = hid s /\ hid (leave_call b) = hid s' /\
+  height_ok sg s a = height_ok sg s' b.
+Proof.
+  destruct s, s', a, b. unfold vsim, hid, enter_call, leave_call, height_ok. simpl.
+  intros (?&?&?&?) (?&?&?&?) Ha Hb. inversion Ha. inversion Hb. subst. simpl. repeat split; auto.
+Qed.
+Lemma leave_frame_ok sg s s' a b : vsim s s' -> novis s -> vsim a b ->
+  hid a = hid (enter_call s) -> hid b = hid (enter_frame s') ->
+  vsim (leave_call a) (leave_frame b) /\ hid (leave_call a) = hid s /\ hid (leave_frame b) = hid s' /\
+  height_ok sg s a = height_ok sg s' b.
+Proof.
+  destruct s, s', a, b. unfold vsim, novis, hid, enter_call, enter_frame, leave_call, leave_frame, height_ok. simpl.
+  intros (?&?&?&?) Hn (?&?&?&?) Ha Hb. inversion Ha. inversion Hb. subst. simpl in *. repeat split; auto.
+Qed.
+Lemma leave_frame2_ok sg s s' a b : vsim s s' -> vsim a b ->
+  hid a = hid (enter_frame s) -> hid b = hid (enter_frame s') ->
+  vsim (leave_frame a) (leave_frame b) /\ hid (leave_frame a) = hid s /\ hid (leave_frame b) = hid s' /\
+  height_ok sg s a = height_ok sg s' b.
+Proof.
+  destruct s, s', a, b. unfold vsim, hid, enter_frame, leave_frame, height_ok. simpl.
+  intros (?&?&?&?) (?&?&?&?) Ha Hb. inversion Ha. inversion Hb. subst. simpl. repeat split; auto.
 Qed.
 
 Section Calls.
@@ -114,6 +164,36 @@ Section Calls.
     - destruct H as (Ha & b & -> & V & Hb). destruct (F a b V Ha Hb) as (V2 & A2 & B2). split; eauto.
   Qed.
 
+  Lemma exec_Call asm fuel f sg s :
+    exec asm (S fuel) (Call f sg) s =
+    match nth_error asm f with
+    | None => Unk
+    | Some body => framed leave_call (height_ok sg s) (exec asm fuel body (enter_call s)) end.
+  Proof.
+    cbn [Exec.exec]. destruct (nth_error asm f); [|reflexivity].
+    unfold framed, enter_call, leave_call, height_ok.
+    destruct (exec asm fuel n _); reflexivity.
+  Qed.
+  Lemma exec_CustomInv asm fuel cs sg nm s :
+    exec asm (S fuel) (CustomInv cs true sg nm) s =
+    framed leave_frame (height_ok sg s) (exec asm fuel nm (enter_frame s)).
+  Proof.
+    cbn [Exec.exec]. unfold framed, enter_frame, leave_frame, height_ok.
+    destruct (exec asm fuel nm _); reflexivity.
+  Qed.
+
+  Lemma REL_framed h h' h1 h1' r r' fin fin' chk chk' :
+    REL h1 h1' r r' ->
+    (forall a b, vsim a b -> hid a = h1 -> hid b = h1' ->
+       vsim (fin a) (fin' b) /\ hid (fin a) = h /\ hid (fin' b) = h' /\ chk a = chk' b) ->
+    REL h h' (framed fin chk r) (framed fin' chk' r').
+  Proof.
+    intros H F. unfold framed. eapply REL_match; eauto.
+    - intros a b V Ha Hb. destruct (F a b V Ha Hb) as (V2 & A2 & B2 & C). rewrite <- C.
+      destruct (chk a); [apply REL_ok | apply REL_err]; auto.
+    - intros c a b V Ha Hb. destruct (F a b V Ha Hb) as (V2 & A2 & B2 & C). apply REL_err; auto.
+  Qed.
+
   Ltac fin_ok :=
     first [ exact I
           | apply REL_ok; [repeat split; cbn [stk und fills fbs depth]; auto; congruence | auto; try reflexivity; try assumption | auto; try reflexivity; try assumption]
@@ -131,6 +211,68 @@ Section Calls.
     unfold need, set_stk, set_und, set_su; cbn [stk und fills fbs depth];
     rewrite <- ?E1, <- ?E2.
 
+  Ltac inv_hid :=
+    unfold hid, set_stk, set_und, set_su, enter_frame, enter_call in *; cbn [stk und fills fbs depth] in *;
+    repeat match goal with H : (_, _, _) = (_, _, _) |- _ => inversion H; clear H end;
+    repeat match goal with H : fbs _ = _ :: _ |- _ => rewrite !H end;
+    cbn [tl hd].
+  Ltac solve_hid :=
+    first [ reflexivity | eassumption
+          | (unfold hid, set_stk, set_und, set_su, enter_frame, enter_call in *; cbn [stk und fills fbs depth] in *; congruence)
+          | (inv_hid; congruence) ].
+  Ltac solve_vsim :=
+    first [ (unfold vsim, set_stk, set_und, set_su, enter_frame, enter_call in *; cbn [stk und fills fbs depth hd] in *;
+             repeat match goal with H : _ /\ _ |- _ => destruct H end;
+             repeat split; congruence)
+          | (unfold vsim; inv_hid; repeat match goal with H : _ /\ _ |- _ => destruct H end; repeat split; congruence) ].
+  Ltac use_v :=
+    repeat match goal with
+    | H : vsim ?a ?b |- _ =>
+        let e1 := fresh "Ev" in let e2 := fresh "Ev" in let e3 := fresh "Ev" in let e4 := fresh "Ev" in
+        destruct H as (e1 & e2 & e3 & e4);
+        unfold need, set_stk, set_und, set_su; cbn [stk und fills fbs depth];
+        rewrite <- ?e1, <- ?e2, <- ?e3
+    end.
+  Ltac solve_novis Hn :=
+    let Hv := fresh "Hv" in
+    intros Hv; cbn [sets_fill] in Hv;
+    first [ discriminate Hv
+          | reflexivity
+          | (rewrite ?orb_true_r, ?orb_false_r in Hv;
+             first [ discriminate Hv
+                   | (eapply novis_hid; [ | apply Hn; exact Hv ]; solve_hid) ]) ].
+  Ltac step_exec IH Hn :=
+    match goal with
+    | |- REL _ _ ?L ?R =>
+      match L with context [Exec.exec pknown psem arrsem unpacksem fmtsem asm1 ?fu ?n ?sa] =>
+      match R with context [Exec.exec pknown psem arrsem unpacksem fmtsem asm2 ?fu2 ?n' ?sb] =>
+        let H := fresh "HR" in
+        assert (H : REL (hid sa) (hid sb) (exec asm1 fu n sa) (exec asm2 fu2 n' sb))
+          by (apply (IH_use _ _ IH); [solve_vsim | reflexivity | reflexivity | solve_novis Hn]);
+        let a := fresh "a" in let b := fresh "b" in let c := fresh "c" in
+        let Ha := fresh "Ha" in let Hb := fresh "Hb" in let Vab := fresh "Vab" in let Eb := fresh "Eb" in
+        destruct (exec asm1 fu n sa) as [a|c a| |];
+          [ destruct H as (Ha & b & Eb & Vab & Hb); rewrite Eb; clear Eb
+          | destruct H as (Ha & b & Eb & Vab & Hb); rewrite Eb; clear Eb
+          | exact I | exact I ];
+        cbn [bind]; use_v
+      end end
+    end.
+  Ltac auto_rel IH Hn :=
+    repeat first
+    [ exact I
+    | apply REL_ok; [solve_vsim | solve_hid | solve_hid]
+    | apply REL_err; [solve_vsim | solve_hid | solve_hid]
+    | match goal with
+      | |- REL _ _ (if ?c then _ else _) _ => destruct c eqn:?
+      | |- REL _ _ (match ?x with _ => _ end) _ =>
+          lazymatch x with
+          | context [Exec.exec] => fail
+          | _ => destruct x eqn:?
+          end
+      end
+    | step_exec IH Hn ].
+
   Theorem T : forall fuel1 fuel2, fuel1 <= fuel2 -> IHT fuel1 fuel2.
   Proof.
     induction fuel1 as [|fuel1 IHf]; intros fuel2 Hle k vis n s s' V Hn; [exact I|].
@@ -146,25 +288,213 @@ Section Calls.
       apply REL_run; auto.
       + intros Hv a Ha. eapply novis_hid; eauto.
       + apply REL_ok; auto.
-    - (* Mod *) admit.
-    - (* Call *) admit.
+    - (* Mod *)
+      destruct m; cbn [Exec.exec];
+        destruct args as [|[sg1 f1] [|[sg2 f2] [|[sg3 f3] rest]]]; cbn [map fst snd sets_fill]; try exact I.
+      all: try (norm E1 E2; rewrite ?Efc; auto_rel IH Hn; fail).
+      (* fill *)
+      destruct (so sg1 =? 0); [exact I|]. auto_rel IH Hn.
+      all: unfold hid in Ha, Hb, Ha0, Hb0; cbn [stk und fills fbs depth] in Ha0, Hb0;
+        inversion Ha as [[A1 A2 A3]]; inversion Hb as [[B1 B2 B3]];
+        inversion Ha0 as [[C1 C2 C3]]; inversion Hb0 as [[D1 D2 D3]].
+      all: (apply REL_ok || apply REL_err); unfold vsim, hid; cbn [stk und fills fbs depth];
+        rewrite ?C1, ?C2, ?C3, ?D2, ?D3; cbn [tl]; repeat split; congruence.
+    - (* Call *)
+      rewrite exec_Call. destruct (nth_error asm1 f) as [body|] eqn:Ef; [|exact I].
+      assert (Kept : REL (hid s) (hid s') (framed leave_call (height_ok s0 s) (exec asm1 fuel1 body (enter_call s)))
+                       (exec asm2 (S fuel2) (Call f s0) s')).
+      { rewrite exec_Call, (Htab _ _ Ef).
+        eapply REL_framed.
+        - apply IH.
+          + repeat split; cbn [enter_call stk und fills fbs depth hd]; auto. congruence.
+          + intros _. reflexivity.
+        - intros a b Vab Ha Hb. apply leave_call_ok; auto. }
+      destruct vis; [exact Kept|].
+      destruct k as [|k']; [exact Kept|].
+      rewrite exec_CustomInv.
+      eapply REL_framed.
+      + apply IH.
+        * repeat split; cbn [enter_call enter_frame stk und fills fbs depth hd]; auto.
+          rewrite <- E4. symmetry. apply Hn. reflexivity.
+        * intros _. reflexivity.
+      + intros a b Vab Ha Hb. apply leave_frame_ok; auto.
     - exact I.
     - exact I.
     - exact I.
-    - (* Arr *) admit.
+    - (* Arr *)
+      cbn [Exec.exec]. norm E1 E2. auto_rel IH Hn.
     - (* Unpack *) cbn [Exec.exec]. norm E1 E2. brk; fin_ok.
-    - (* Switch *) admit.
+    - (* Switch *)
+      cbn [Exec.exec]. norm E1 E2. rewrite map_length.
+      destruct (stk s) as [|sel rest] eqn:Es; [fin_ok|].
+      destruct sel as [z|]; [|exact I].
+      destruct ((z <? 0)%Z || (Z.of_nat (length brs) <=? z)%Z); [fin_ok|].
+      rewrite nth_error_map. destruct (nth_error brs (Z.to_nat z)) as [[fs f]|]; [|exact I].
+      cbn [option_map fst snd]. auto_rel IH Hn.
+      destruct under_cond; auto_rel IH Hn.
     - cbn [Exec.exec]. norm E1 E2. brk; fin_ok.
     - cbn [Exec.exec]. norm E1 E2. brk; fin_ok.
     - cbn [Exec.exec]. norm E1 E2. brk; fin_ok.
     - (* NoInline *) cbn [Exec.exec]. apply IH; auto.
     - (* TrackCaller *) cbn [Exec.exec]. norm E1 E2. brk; try fin_ok. apply IH; auto.
-    - (* CustomInv *) admit.
+    - (* CustomInv *)
+      destruct has_normal.
+      + rewrite !exec_CustomInv. eapply REL_framed.
+        * apply IH; [solve_vsim|]. intros Hv. exact (Hn Hv).
+        * intros a b Vab Ha Hb. apply leave_frame2_ok; auto.
+      + cbn [Exec.exec]. fin_ok.
     - cbn [Exec.exec]. norm E1 E2. brk; fin_ok.
     - cbn [Exec.exec]. norm E1 E2. brk; fin_ok.
     - cbn [Exec.exec]. norm E1 E2. brk; fin_ok.
     - exact I.
     - exact I.
     - cbn [Exec.exec]. fin_ok.
-  Admitted.
+  Qed.
 End Calls.
+
+(** * Corollaries *)
+Lemma inlc_O asm n : forall vis, inlc asm 0 vis n = n.
+Proof.
+  induction n using node_ind'; intros vis; cbn [inlc]; try reflexivity.
+  - f_equal. induction H as [|x t Hx Ht IHl]; simpl; f_equal; auto.
+  - f_equal. induction H as [|[sg x] t Hx Ht IHl]; simpl; f_equal; auto. simpl in Hx. rewrite Hx. reflexivity.
+  - destruct vis; reflexivity.
+  - f_equal; auto.
+  - f_equal. induction H as [|[sg x] t Hx Ht IHl]; simpl; f_equal; auto. simpl in Hx. rewrite Hx. reflexivity.
+  - f_equal; auto.
+  - f_equal; auto.
+  - f_equal; auto.
+Qed.
+
+Lemma vsim_hid_eq a b : vsim a b -> hid a = hid b -> a = b.
+Proof.
+  destruct a, b. unfold vsim, hid. simpl. intros (?&?&?&?) HH. inversion HH. subst. reflexivity.
+Qed.
+
+Section Corollaries.
+  Variable pknown : N -> list sval -> bool.
+  Variable psem : N -> option (list sval) -> list sval -> option (list sval).
+  Variable arrsem : bool -> list sval -> option sval.
+  Variable unpacksem : nat -> bool -> sval -> option (list sval).
+  Variable fmtsem : list sval -> sval.
+  Notation exec := (Exec.exec pknown psem arrsem unpacksem fmtsem).
+  Notation TT := (T pknown psem arrsem unpacksem fmtsem).
+
+  Lemma tab_id asm : forall f body, nth_error asm f = Some body ->
+    nth_error asm f = Some (inlc asm 0 false body).
+  Proof. intros. rewrite inlc_O. auto. Qed.
+
+  (** every node restores the fill stack, the fill boundaries and the call depth, on success and
+      at every failure point (no premise on the tree) *)
+  Theorem exec_hid asm fuel n s :
+    match exec asm fuel n s with
+    | Ok a | Err _ a => fills a = fills s /\ fbs a = fbs s /\ depth a = depth s
+    | _ => True end.
+  Proof.
+    pose proof (TT asm asm 0 (tab_id asm) fuel fuel (le_n _) 0 true n s s (vsim_refl s)
+                  (fun H => False_ind _ (Bool.diff_true_false H))) as H.
+    destruct (exec asm fuel n s) as [a|c a| |]; auto; destruct H as (Ha & _);
+      unfold hid in Ha; inversion Ha; auto.
+  Qed.
+
+  (** more fuel never changes a result *)
+  Theorem fuel_mono asm fuel fuel' n s : fuel <= fuel' ->
+    match exec asm fuel n s with
+    | Ok a => exec asm fuel' n s = Ok a
+    | Err c a => exec asm fuel' n s = Err c a
+    | _ => True end.
+  Proof.
+    intros Hle.
+    pose proof (TT asm asm 0 (tab_id asm) fuel fuel' Hle 0 true n s s (vsim_refl s)
+                  (fun H => False_ind _ (Bool.diff_true_false H))) as H.
+    rewrite inlc_O in H.
+    destruct (exec asm fuel n s) as [a|c a| |]; auto; destruct H as (Ha & b & -> & V & Hb);
+      f_equal; symmetry; apply vsim_hid_eq; auto; congruence.
+  Qed.
+
+  (** rebinding: a `Call` holds the index of the function it was compiled against; functions
+      added to the table later (a rebinding adds a new function and a new binding, it never
+      overwrites: assembly.rs:183 add_function pushes) do not change any run of older code *)
+  Theorem rebinding_stable asm more fuel n s :
+    match exec asm fuel n s with
+    | Ok a => exec (asm ++ more) fuel n s = Ok a
+    | Err c a => exec (asm ++ more) fuel n s = Err c a
+    | _ => True end.
+  Proof.
+    assert (Htab : forall f body, nth_error asm f = Some body ->
+              nth_error (asm ++ more) f = Some (inlc asm 0 false body)).
+    { intros f body H. rewrite inlc_O. rewrite nth_error_app1; auto.
+      apply nth_error_Some. congruence. }
+    pose proof (TT asm (asm ++ more) 0 Htab fuel fuel (le_n _) 0 true n s s (vsim_refl s)
+                  (fun H => False_ind _ (Bool.diff_true_false H))) as H.
+    rewrite inlc_O in H.
+    destruct (exec asm fuel n s) as [a|c a| |]; auto; destruct H as (Ha & b & -> & V & Hb);
+      f_equal; symmetry; apply vsim_hid_eq; auto; congruence.
+  Qed.
+
+  (** the documented exception, stated positively: whatever fill the caller has, the body of a
+      call sees none; and the caller's fill stack, boundaries and depth are back after the call *)
+  Theorem call_hides_fill asm fuel f sg s :
+    fillctx (enter_call s) = None /\
+    (forall body, nth_error asm f = Some body ->
+       exec asm (S fuel) (Call f sg) s =
+       framed leave_call (height_ok sg s) (exec asm fuel body (enter_call s))) /\
+    match exec asm (S fuel) (Call f sg) s with
+    | Ok a | Err _ a => fills a = fills s /\ fbs a = fbs s /\ depth a = depth s
+    | _ => True end.
+  Proof.
+    split; [|split].
+    - apply novis_fillctx. reflexivity.
+    - intros body Hb. rewrite exec_Call, Hb. reflexivity.
+    - apply exec_hid.
+  Qed.
+
+  (** a call is its body: where no fill frame is visible, calling a checked function and running
+      its body in place agree on success/failure, the stack, the under stack and the hidden state *)
+  Theorem call_is_body asm : asm_ok asm -> forall f sg body, nth_error asm f = Some body ->
+    tree_ok asm body -> stored_ok sg body ->
+    forall fuel s, novis s -> sa sg <= length (stk s) -> sua sg <= length (und s) ->
+    match exec asm fuel body s with
+    | Ok a => exec asm (S fuel) (Call f sg) s = Ok a
+    | Err c a => exec asm (S fuel) (Call f sg) s = Err c a
+    | _ => True end.
+  Proof.
+    intros HA f sg body Hf Tb Ob fuel s Hn L1 L2.
+    assert (V : vsim s (enter_call s)).
+    { repeat split. unfold enter_call. cbn [fbs hd]. exact Hn. }
+    pose proof (TT asm asm 0 (tab_id asm) fuel fuel (le_n _) 0 true body s (enter_call s) V
+                  (fun H => False_ind _ (Bool.diff_true_false H))) as H.
+    rewrite inlc_O in H. rewrite exec_Call, Hf.
+    pose proof (Frame.frame_check_passes pknown psem arrsem unpacksem fmtsem asm HA body sg Tb Ob fuel s) as FC.
+    destruct (exec asm fuel body s) as [a|c a| |] eqn:Ex; auto.
+    - destruct H as (Ha & b & -> & Vab & Hb). unfold framed.
+      specialize (FC a L1 L2 eq_refl).
+      assert (Eab : leave_call b = a).
+      { destruct a, b, s. unfold vsim, hid, enter_call, leave_call in *. simpl in *.
+        destruct Vab as (?&?&?&?). inversion Ha. inversion Hb. subst. reflexivity. }
+      assert (Hh : height_ok sg s b = true).
+      { unfold height_ok. destruct Vab as (E & _). rewrite <- E. apply Z.eqb_eq. exact FC. }
+      rewrite Hh, Eab. reflexivity.
+    - destruct H as (Ha & b & -> & Vab & Hb). unfold framed.
+      f_equal. destruct a, b, s. unfold vsim, hid, enter_call, leave_call in *. simpl in *.
+      destruct Vab as (?&?&?&?). inversion Ha. inversion Hb. subst. reflexivity.
+  Qed.
+
+  (** checked inlining is sound for ALL outcomes with the SAME fuel: every call that is not under
+      a fill operand is replaced (to any nesting depth k) by a plain frame around its inlined body,
+      the table by its inlined bodies, and nothing observable changes *)
+  Theorem inline_checked_sound asm K k fuel n s : novis s ->
+    match exec asm fuel n s with
+    | Ok a => exec (map (inlc asm K false) asm) fuel (inlc asm k false n) s = Ok a
+    | Err c a => exec (map (inlc asm K false) asm) fuel (inlc asm k false n) s = Err c a
+    | _ => True end.
+  Proof.
+    intros Hn.
+    assert (Htab : forall f body, nth_error asm f = Some body ->
+              nth_error (map (inlc asm K false) asm) f = Some (inlc asm K false body)).
+    { intros f body H. apply map_nth_error. exact H. }
+    pose proof (TT asm _ K Htab fuel fuel (le_n _) k false n s s (vsim_refl s) (fun _ => Hn)) as H.
+    destruct (exec asm fuel n s) as [a|c a| |]; auto; destruct H as (Ha & b & -> & V & Hb);
+      f_equal; symmetry; apply vsim_hid_eq; auto; congruence.
+  Qed.
+End Corollaries.
